@@ -24,7 +24,11 @@ ASSUMPTIONS = ['identity position map (the map itself is the subject of C01-C04)
 
 # (the shell appends a final line break to every file it reads: run_proofreader)
 SOURCES = ['ab <b>&amp; "q"\n\n\tx > y\nlast line\n', 'one\ntwo & three\n', '<\n',
-           'a\n' * 5 + 'zz\n']
+           'a\n' * 5 + 'zz\n',
+           # backslashes that do / do not start a macro name, a macro name later in the file
+           'R \\& D\n\\LaTeX \\\\ \\it\n',
+           # characters that str.splitlines() takes as line ends, '\n' being the only real one
+           'a\x0cb\u2028c\n\x0bd\x85e\x1c\nf\u2029\n']
 # alphabet of harness esc: every character protect_html treats specially + ordinary ones;
 # harness escrx proves with z3 that no other character is touched by any of its patterns
 ALPHA = ['&', '"', '<', '>', '\t', ' ', '\n', 'a', ';', '#', 'é', '\r', '\u2028', "'", '\\']
@@ -121,7 +125,14 @@ def _judge_body(tex, ms, context, body):
     # every match highlighted exactly once with the span it maps to
     for m in ms:
         o, l = m['offset'], m['length']
-        exp = tex[o:o + max(1, l)].replace('\t', ' ' * 8)
+        exp = tex[o:o + max(1, l)]
+        if exp == '\\':
+            # a single backslash that starts a macro name stands for the whole name (generated
+            # text such as 'LaTeX' is mapped to the backslash of \LaTeX)
+            mm = re.match(r'\\[A-Za-z]+', tex[o:])
+            if mm:
+                exp = mm.group(0)
+        exp = exp.replace('\t', ' ' * 8)
         got = [norm(t) for ttl, t in p.spans if m['message'].split()[0] in ttl.replace(' ', ' ')]
         txt = ''.join(got)
         if txt.replace('\n', '') != exp.replace('\n', ''):
